@@ -89,14 +89,20 @@ def run_spec(spec, props=("C20",)):
         for (n, es) in spec["graphs"]:
             es = [tuple(e) for e in es]
             G = gr.mk(n, es)
+            if spec.get("variant") == "loops":          # degree = what G.degree() says (a self-loop counts twice)
+                G.add_edge(0, 0)
+                if n > 2:
+                    G.add_edge(n - 1, n - 1)
+            elif spec.get("variant") == "multi" and es:   # parallel edges count separately
+                G = nx.MultiGraph(G); G.add_edge(*es[0]); G.add_edge(*es[-1])
             A.evals += 1
             deg = dict(G.degree())
             hist = {}
             for v, k in deg.items():
                 hist[k] = hist.get(k, 0) + 1
             PkF = {k: Fraction(c, n) for k, c in hist.items()}
-            tag = "graph n=%d edges=%r" % (n, es)
-            A.states.add((n, tuple(es))); A.trans.add((n, tuple(es))); A.nontrivial.add((n, tuple(es)))
+            tag = "graph n=%d edges=%r%s" % (n, es, (" (+%s)" % spec["variant"]) if spec.get("variant") else "")
+            A.states.add((n, tuple(es), spec.get("variant"))); A.trans.add((n, tuple(es))); A.nontrivial.add((n, tuple(es)))
             try:
                 Pk = EoN.get_Pk(G)
             except Exception as e:
@@ -115,7 +121,7 @@ def run_spec(spec, props=("C20",)):
             kave = sum(k * PkF[k] for k in PkF); k2 = sum(k * (k - 1) * PkF[k] for k in PkF)
             if abs(psi(1.0) - 1) > 1e-12 or abs(psiP(1.0) - float(kave)) > 1e-12 or abs(psiDP(1.0) - float(k2)) > 1e-12:
                 A.add(V("C20", "get_PGF", "graph", "moments", "%s: psi(1), psi'(1), psi''(1) = %r, %r, %r; expected 1, %r, %r" % (tag, psi(1.0), psiP(1.0), psiDP(1.0), float(kave), float(k2))))
-            if es:
+            if es and not spec.get("variant"):
                 try:
                     Pnk = EoN.get_Pnk(G)
                     for k1 in hist:
@@ -178,11 +184,18 @@ def specs(tier):
         out.append(dict(kind="subsample", alphabet=alpha, beyond=[5] , times=alltimes[i:i + 8], maxlen=4 if thorough else 3))
     out.append(dict(kind="subsample", alphabet=[0.5, 1.5, 2.5], beyond=[], times=[t for t in alltimes if len(t) >= 2][:40], maxlen=3))
     out.append(dict(kind="time_shift", maxlen=4 if not thorough else 5, values=[0, 1, 2], thresholds=[1, 2, 0.5]))
+    # values a hair below the threshold have not reached it (no tolerance in "reaches"); large counts
+    out.append(dict(kind="time_shift", maxlen=3, values=[0, 99999, 100000, 100001], thresholds=[100000]))
+    out.append(dict(kind="time_shift", maxlen=3, values=[0.0, 1 - 1e-9, 1.0, 1 + 1e-9], thresholds=[1.0]))
+    out.append(dict(kind="time_shift", maxlen=3, values=[0.0, 0.01 * (1 - 2e-6), 0.01], thresholds=[0.01]))
     graphs = [(n, es) for n, es in gr.small_graphs(3)] + [(4, es) for es in gr.shapes(4)] + [(5, es) for es in gr.shapes(5)]
     if thorough:
         graphs += [(6, es) for es in gr.trees_cached(6)] + [(n, es) for (_, n, es) in gr.regular_graphs()]
     for i in range(0, len(graphs), 10):
         out.append(dict(kind="degree", graphs=graphs[i:i + 10]))
+    small = [(n, es) for n, es in graphs if n <= 4]
+    out.append(dict(kind="degree", graphs=small, variant="loops"))
+    out.append(dict(kind="degree", graphs=[g for g in small if g[1]], variant="multi"))
     hists = [list(h) for h in itertools.product(range(4 if thorough else 3), repeat=5) if sum(h) > 0]
     for i in range(0, len(hists), 64):
         out.append(dict(kind="hist", hists=hists[i:i + 64]))
